@@ -8,7 +8,9 @@ MC_BaseCalls == <<
     Call("MkVec", 0, 0, "continuous", B(NoneQ, NoneQ), 3, 0, 0, "x"),
     Call("MkPar", 0, 0, "", LitS("float", Q(3, 2)), 1, 0, 0, "p"),
     Call("Slice", 3, 0, "", NoLit, 0, 2, NoneI, ""),
-    Call("Slice", 3, 0, "", NoLit, NoneI, NoneI, -1, "")
+    Call("Slice", 3, 0, "", NoLit, NoneI, NoneI, -1, ""),
+    Call("Slice", 3, 0, "", NoLit, 1, 3, NoneI, ""),
+    Call("Slice", 3, 0, "", NoLit, NoneI, NoneI, NoneI, "")
   >>
 MC_AllNames == {<<"s">>, <<"t">>, <<"x", 0>>, <<"x", 1>>, <<"x", 2>>}
 MC_En == {"SBin", "SBinLit", "SNeg", "Fn", "VFn", "Index", "VBin", "VBinLit", "VNeg", "Sum", "Dot", "LinComb", "Norm"}
@@ -16,10 +18,15 @@ MC_ScalarLits == {LitS("int", Q(2, 1)), LitS("float", Q(1, 2)), LitS("int", Q(-1
 MC_ArrayLits == {Lit("arr", <<Q(1,1), Q(-2,1), Q(3,1)>>, <<3>>), Lit("arr", <<Q(2,1), Q(5,1)>>, <<2>>)}
 MC_Slices == {}
 MC_Indices == {0, -1}
-MC_Fns == {"sin", "exp", "sqrt", "abs", "log", "tanh"}
+MC_Fns == UnFns \ {"neg"}
+MC_FnsSmall == {"sin", "sqrt", "abs"}
+MC_ScalarLitsSmall == {LitS("int", Q(2, 1)), LitS("float", Q(1, 2))}
 MC_SOps == {"+", "-", "*", "/", "**"}
-MC_VOps == {"+", "-", "*", "/"}
+MC_VOps == {"+", "-", "*", "/", "**"}
 MC_Senses == {}
-MC_Want == {"D"}
+MC_Want == {"V"}
+MC_WantD == {"D"}
+MC_WantDV == {"D", "V"}
+MC_WantH == {"D", "H", "V"}
 ASSUME PrintT(<<"BASE", BaseCalls, BaseHeap, AllNames>>)
 =============================================================================
